@@ -267,7 +267,7 @@ def ordering(ctx, P, f, subst):
     if match(["b", "<", ["local", "now"], ["local", ANY]], cond):
         dl = cond[3][1]
     dls = [st for st in stmts(f.body) if st.get("k") == "decl" and st.get("n") == dl] if dl else []
-    ok = len(dls) == 1 and dl in local_defs(f, P) and match(["b", "+", ["local", "now"], [".", ["param", "wait_options"], "node::BlockWaitOptions::timeout"]], dls[0].get("i")) \
+    ok = len(dls) == 1 and dl in local_defs(f, P, allow_overwritten=True) and match(["b", "+", ["local", "now"], [".", ["param", "wait_options"], "node::BlockWaitOptions::timeout"]], dls[0].get("i")) \
         and not any(dls[0] is x for x in stmts(lp))
     ctx.ob("WaitAndCreateNewBlock/deadline", "PROVENANCE", "the wait loop continues only while now < deadline, where deadline is fixed before the loop as start + wait_options.timeout",
            bool(ok), "%s:%s" % (f.file, lp.get("l")), {"condition": show(cond)})
